@@ -23,5 +23,5 @@ for id in "$@"; do
   VERIF_DEV_RUN=1 /verif/vcheck $id > $D/check_$id.txt 2>&1; rc=$?
   echo "$g/$k $id rc=$rc $(( $(date +%s) - s ))s $(grep -E '^(VIOLATION|UNDECIDED|KNOWN)' $D/check_$id.txt | head -2 | cut -c1-260)"
 done
-git -C /repo checkout -- .
+git -C /repo checkout -- . && git -C /repo clean -fdq
 git -C /repo status --short
